@@ -241,3 +241,37 @@ class MNAddEdge(Contract):
 
 
 register(MNAddEdge())
+
+
+class BNCopy(Contract):
+    """structure part of BayesianNetwork.copy: a fresh object with the same nodes, edges and latent set, whose latent
+    set is a different object than the original's (separation); CPD copies are opaque here (bounded: copy_separation)."""
+    file = "pgmpy/models/BayesianNetwork.py"
+    qual = "BayesianNetwork.copy"
+
+    def variants(self, ex):
+        g = new_bn()
+        g.fields["cpds"] = Coll("list", Opaque, z3.Const("cpds", set_sort(Opaque)), nodup=True)
+        yield "any", {"self": g}, {}
+
+    def pre(self, ex, st, args):
+        return wf_graph(args["self"])
+
+    def snapshot(self, ex, st, args):
+        return graph_snapshot(args["self"])
+
+    def post(self, ex, st, args, old, result):
+        g = args["self"]
+        if not isinstance(result, Obj):
+            return z3.BoolVal(False)
+        a, b = fresh("a", Atom), fresh("b", Atom)
+        lat = result.fields.get("latents")
+        return {"same-structure": z3.And(z3.ForAll([a], result.fields["_nodes"][a] == old["_nodes"][a]),
+                                         z3.ForAll([a, b], result.fields["_E"][a, b] == old["_E"][a, b]),
+                                         z3.ForAll([a], lat.mem[a] == old["latents"][a]) if isinstance(lat, Coll) and lat.mem is not None
+                                         else z3.ForAll([a], z3.Not(old["latents"][a]))),
+                "fresh-object-and-own-latent-set": z3.BoolVal(result is not g and lat is not g.fields["latents"]),
+                "frame": graph_unchanged(g, old)}
+
+
+register(BNCopy())
